@@ -1,5 +1,6 @@
 import RbV.Model.IndexedFasta
 import RbV.Lemmas.IndexedFasta
+import RbV.Thm.GenSrcIdxFa
 /-!
 # C12 — indexed FASTA random access returns exactly the requested slice
 
@@ -188,6 +189,194 @@ parser model) establishes `WellFormed`, i.e. every case the driver accepts is in
 theorem wfCheck_sound (file : Bytes) (idx : Idx) (seq : Bytes) (h : wfCheck file idx seq = true) :
     WellFormed file idx seq := wfCheck_sound' file idx seq h
 
+/-! ## The source text of `IndexedReader`, translated (`RbV/Gen/SrcIdxFa.lean`, regenerated on every `./check C12`)
+
+`tools/rs2lean_cf.py` (sub-dialect "io") translates the text of `seek_to`, `read_line`, `read_into_buffer`,
+`IndexedReaderIterator::{fill_buffer, next}`; the `BufReader` is the reader of the mirror model (`fillBufOp`, `consumeOp`,
+`seekOp` of `Thm/GenSrcIdxFa.lean`: file + position + chunk schedule).  For these functions the tie code ↔ model is a
+theorem about the text.  `fuel` bounds the translated `while` loops: any number above the file length. -/
+
+open RbV.Thm.GenSrcIdxFa in
+/-- `seek_to` computes `offset + (start / line_bases) * line_bytes + start % line_bases`, seeks there and returns the
+column — exactly the model's `seekTo` — when `start ≤ len` and the offset fits `u64`; … -/
+theorem seek_to_source_eq_model (file : Bytes) (idx : Idx) (start : Nat) (s : St)
+    (hlb : 0 < idx.lb) (hst : start ≤ idx.len) (hfit : pos idx start < 2 ^ 64) :
+    Gen.SrcIdxFa.seekTo (seekOp file) s (toRec idx) start =
+      .ok (.ok (seekTo file idx start).2, (seekTo file idx start).1) :=
+  seekTo_eq_model file idx start s hlb hst hfit
+
+open RbV.Thm.GenSrcIdxFa in
+/-- … and panics (`assert!`) on a start behind the end of the record -/
+theorem seek_to_source_out_of_range_panics (file : Bytes) (idx : Idx) (start : Nat) (s : St) (hst : idx.len < start) :
+    Gen.SrcIdxFa.seekTo (seekOp file) s (toRec idx) start = .panic :=
+  seekTo_oob_panics file idx start s hst
+
+open RbV.Thm.GenSrcIdxFa in
+/-- **`read_line`, what its callers rely on** (the state in which a line end is left is *not* fixed): from a state with
+the loop invariant, (1) at the end of the stream the truncation error; (2) otherwise `Ok(n)`: `tr > 0` buffered bytes
+consumed, the first `n ≤ bases_left` of them appended to the output, and these are the bases between the old and the new
+column (`StepOk`). -/
+theorem read_line_source_contract (f : Bytes) (sched : Nat → Nat) (idx : Idx) (s : St) (lo cur line bl : Nat) (buf : Bytes)
+    (hlb : 0 < idx.lb) (hlB : idx.lb < idx.lB) (hs : ∀ k, 0 < sched k) (h64 : idx.lB < 2 ^ 64)
+    (inv : Inv f idx s lo cur line) (hbl : 0 < bl) :
+    (s.rest = [] → EofPost (Gen.SrcIdxFa.readLine (fillBufOp sched) consumeOp s (toRec idx) lo bl buf)) ∧
+    (s.rest ≠ [] → StepPost sched idx s lo bl buf
+      (Gen.SrcIdxFa.readLine (fillBufOp sched) consumeOp s (toRec idx) lo bl buf)) :=
+  ⟨fun h => readLine_eof sched idx s lo bl buf h inv.avail_le,
+   fun h => readLine_step f sched idx s lo cur line bl buf hlb hlB hs h64 inv hbl h⟩
+
+open RbV.Thm.GenSrcIdxFa in
+/-- **`read_into_buffer`: translated code = mirror model** on the returned bytes / error (`Agrees`), for every file and
+`.fai` entry with `0 < line_bases < line_bytes`, every chunk schedule, every earlier state of reader and buffer. -/
+theorem read_into_buffer_source_eq_model (file : Bytes) (sched : Nat → Nat) (idx : Idx) (start stop : Nat) (s0 : St)
+    (seq0 : Bytes) (fuel : Nat) (hlb : 0 < idx.lb) (hlB : idx.lb < idx.lB) (hs : ∀ k, 0 < sched k)
+    (h64 : idx.lB < 2 ^ 64) (hfit : pos idx start < 2 ^ 64) (hfuel : file.length < fuel) :
+    ∃ out, Gen.SrcIdxFa.readIntoBuffer (fillBufOp sched) consumeOp (seekOp file) s0 (toRec idx) start stop seq0 fuel
+        = .ok out ∧ Agrees (readIntoBuffer file sched idx start stop) out :=
+  readIntoBuffer_eq_model file sched idx start stop s0 seq0 fuel hlb hlB hs h64 hfit hfuel
+
+open RbV.Thm.GenSrcIdxFa in
+/-- **The translated `read_into_buffer` returns exactly `seq[start..stop]`** for every well-formed file and every chunk
+schedule, whatever the reader position and the buffer content were before (no mirror model in the statement). -/
+theorem read_source_correct (file seq : Bytes) (idx : Idx) (start stop : Nat) (sched : Nat → Nat) (s0 : St) (seq0 : Bytes)
+    (fuel : Nat) (wf : WellFormed file idx seq) (h1 : start ≤ stop) (h2 : stop ≤ idx.len) (hs : ∀ k, 0 < sched k)
+    (h64 : idx.lB < 2 ^ 64) (hfit : pos idx start < 2 ^ 64) (hfuel : file.length < fuel) :
+    ∃ s', Gen.SrcIdxFa.readIntoBuffer (fillBufOp sched) consumeOp (seekOp file) s0 (toRec idx) start stop seq0 fuel
+        = .ok (.ok (), s', (seq.drop start).take (stop - start)) := by
+  obtain ⟨⟨r, s', out⟩, h, ha⟩ :=
+    readIntoBuffer_eq_model file sched idx start stop s0 seq0 fuel wf.lb_pos wf.lB_gt hs h64 hfit hfuel
+  rw [read_correct file seq idx start stop sched wf h1 h2 hs] at ha
+  obtain ⟨hr, ho⟩ := ha
+  exact ⟨s', by rw [h, hr, ho]⟩
+
+open RbV.Thm.GenSrcIdxFa in
+/-- **Truncation inside the span**: the translated `read_into_buffer` returns the "FASTA file is truncated." error
+(`io::ErrorKind::UnexpectedEof`) — never `Ok` with short or shifted data. -/
+theorem read_source_truncated (file seq : Bytes) (idx : Idx) (start stop n : Nat) (sched : Nat → Nat) (s0 : St)
+    (seq0 : Bytes) (fuel : Nat) (wf : WellFormed file idx seq) (h1 : start < stop) (h2 : stop ≤ idx.len)
+    (hs : ∀ k, 0 < sched k) (hcut : n ≤ pos idx (stop - 1))
+    (h64 : idx.lB < 2 ^ 64) (hfit : pos idx start < 2 ^ 64) (hfuel : (file.take n).length < fuel) :
+    ∃ s' seq', Gen.SrcIdxFa.readIntoBuffer (fillBufOp sched) consumeOp (seekOp (file.take n)) s0 (toRec idx) start stop
+        seq0 fuel = .ok (.error eofErr, s', seq') := by
+  obtain ⟨⟨r, s', out⟩, h, ha⟩ :=
+    readIntoBuffer_eq_model (file.take n) sched idx start stop s0 seq0 fuel wf.lb_pos wf.lB_gt hs h64 hfit hfuel
+  rw [read_truncated file seq idx start stop n sched wf h1 h2 hs hcut] at ha
+  exact ⟨s', out, by rw [h]; exact congrArg (fun x => Rs.Res.ok (x, s', out)) ha⟩
+
+open RbV.Thm.GenSrcIdxFa in
+/-- **`fill_buffer`** (one refill of the iterator's private buffer, from a state with the loop invariant, `bases_left > 0`):
+the next chunk of at least one and at most `bases_left` bases when the next base lies inside the file, an error otherwise;
+for every positive chunk size asked for (`capacity()` or a constant: seeded change C12-H1). -/
+theorem fill_buffer_source_spec (f : Bytes) (sched : Nat → Nat) (idx : Idx) (cap bi bl cur : Nat) (buf : Bytes)
+    (hlb : 0 < idx.lb) (hlB : idx.lb < idx.lB) (hs : ∀ k, 0 < sched k) (h64 : idx.lB < 2 ^ 64)
+    (hcap : 0 < cap) (hbl : 0 < bl) (fuel : Nat) (s : St) (lo line : Nat)
+    (inv : Inv f idx s lo cur line) (hfuel : s.rest.length + 1 < fuel) :
+    (pos idx cur < f.length →
+      ∃ s' lo' n line', 0 < n ∧ n ≤ bl ∧
+        Gen.SrcIdxFa.fillBuffer (fillBufOp sched) consumeOp cap s (toRec idx) bl lo buf bi fuel =
+          .ok (.ok (), s', bl - n, lo', slice f idx cur (cur + n), 0) ∧
+        Inv f idx s' lo' (cur + n) line' ∧ s'.rest.length ≤ s.rest.length ∧
+        (∀ j, j < n → pos idx (cur + j) < f.length)) ∧
+    (f.length ≤ pos idx cur →
+      ∃ s' bl' lo' buf' bi', Gen.SrcIdxFa.fillBuffer (fillBufOp sched) consumeOp cap s (toRec idx) bl lo buf bi fuel =
+          .ok (.error eofErr, s', bl', lo', buf', bi')) :=
+  fillBuffer_spec f sched idx cap bi bl cur buf hlb hlB hs h64 hcap hbl fuel s lo line inv hfuel
+
+open RbV.Thm.GenSrcIdxFa in
+/-- **The byte iterator: translated code = mirror model.**  `drainIt` calls the translated `next` (which calls the
+translated `fill_buffer`, which calls the translated `read_line`) until it returns `None`; from the state the translated
+`seek_to` leaves (first conjunct), the items are exactly those of the model's `readIter`: the bytes, then the error that
+ended it, if any.  (`read_into_iter` itself — two comparisons and a struct literal — is read by hand: it yields the state
+`(reader after seek_to, bases_left = stop - start, line_offset, buf = [], buf_idx = 0)`.) -/
+theorem iter_source_eq_model (file : Bytes) (sched : Nat → Nat) (idx : Idx) (cap start stop fuel calls : Nat) (s0 : St)
+    (hlb : 0 < idx.lb) (hlB : idx.lb < idx.lB) (hs : ∀ k, 0 < sched k) (h64 : idx.lB < 2 ^ 64)
+    (hcap : 0 < cap) (h1 : start ≤ stop) (h2 : stop ≤ idx.len) (hstop : stop < 2 ^ 64) (hfit : pos idx start < 2 ^ 64)
+    (hfuel : file.length + 1 < fuel) (hcalls : stop - start + 2 ≤ calls) :
+    Gen.SrcIdxFa.seekTo (seekOp file) s0 (toRec idx) start =
+      .ok (.ok (seekTo file idx start).2, (seekTo file idx start).1) ∧
+    ∃ r, readIter file sched idx start stop = .ok r ∧
+      drainIt sched cap idx fuel calls ((seekTo file idx start).1, stop - start, (seekTo file idx start).2, [], 0) =
+        .ok (itemsOf r) := by
+  refine ⟨seekTo_eq_model file idx start s0 hlb (by omega) hfit, _, ?_,
+    iter_eq_model file sched idx cap start stop fuel calls hlb hlB hs h64 hcap hstop h1 hfuel hcalls⟩
+  unfold readIter
+  rw [if_neg (by omega), if_neg (by omega)]
+
+open RbV.Thm.GenSrcIdxFa in
+/-- **The drained translated iterator yields exactly `seq[start..stop]`** and no error item, for every well-formed file,
+every chunk schedule, every positive buffer capacity. -/
+theorem iter_source_correct (file seq : Bytes) (idx : Idx) (cap start stop fuel calls : Nat) (sched : Nat → Nat)
+    (wf : WellFormed file idx seq) (h1 : start ≤ stop) (h2 : stop ≤ idx.len) (hs : ∀ k, 0 < sched k)
+    (h64 : idx.lB < 2 ^ 64) (hcap : 0 < cap) (hstop : stop < 2 ^ 64)
+    (hfuel : file.length + 1 < fuel) (hcalls : stop - start + 2 ≤ calls) :
+    drainIt sched cap idx fuel calls ((seekTo file idx start).1, stop - start, (seekTo file idx start).2, [], 0) =
+      .ok (okItems ((seq.drop start).take (stop - start))) := by
+  have hm := iter_correct file seq idx start stop sched wf h1 h2 hs
+  unfold readIter at hm
+  rw [if_neg (by omega), if_neg (by omega)] at hm
+  rw [iter_eq_model file sched idx cap start stop fuel calls wf.lb_pos wf.lB_gt hs h64 hcap hstop h1 hfuel hcalls,
+    Except.ok.inj hm]
+  simp [itemsOf]
+
+open RbV.Thm.GenSrcIdxFa in
+/-- … and on a file cut inside the span: a correct strictly shorter prefix, then the truncation error as the last item. -/
+theorem iter_source_truncated (file seq : Bytes) (idx : Idx) (cap start stop n fuel calls : Nat) (sched : Nat → Nat)
+    (wf : WellFormed file idx seq) (h1 : start < stop) (h2 : stop ≤ idx.len) (hs : ∀ k, 0 < sched k)
+    (hcut : n ≤ pos idx (stop - 1)) (h64 : idx.lB < 2 ^ 64) (hcap : 0 < cap) (hstop : stop < 2 ^ 64)
+    (hfuel : (file.take n).length + 1 < fuel) (hcalls : stop - start + 2 ≤ calls) :
+    ∃ m, m < stop - start ∧
+      drainIt sched cap idx fuel calls
+          ((seekTo (file.take n) idx start).1, stop - start, (seekTo (file.take n) idx start).2, [], 0) =
+        .ok (okItems (((seq.drop start).take (stop - start)).take m) ++ [.error eofErr]) := by
+  obtain ⟨m, hm1, hm⟩ := iter_truncated file seq idx start stop n sched wf h1 h2 hs hcut
+  unfold readIter at hm
+  rw [if_neg (by omega), if_neg (by omega)] at hm
+  refine ⟨m, hm1, ?_⟩
+  rw [iter_eq_model (file.take n) sched idx cap start stop fuel calls wf.lb_pos wf.lB_gt hs h64 hcap hstop
+    (Nat.le_of_lt h1) hfuel hcalls, Except.ok.inj hm]
+  simp [itemsOf, toIo]
+
+open RbV.Thm.GenSrcIdxFa in
+/-- `fetch_by_rid` / `fetch_all_by_rid` (and `idx_by_rid` below them): translated code = mirror model — an unknown record
+number is an error that leaves the fetch state alone, a known one stores the `.fai` entry and the interval -/
+theorem fetch_by_rid_source_eq_model (index : List (Bytes × Idx)) (fi : Option Gen.SrcIdxFa.IndexRecord) (a b : Option Nat)
+    (rid start stop : Nat) :
+    Gen.SrcIdxFa.fetchByRid (toRecs index) fi a b rid start stop =
+      .ok (match fetchByRid index rid start stop with
+        | .ok r => (.ok (), fetchState r)
+        | .error e => (.error (toIo e), fi, a, b)) ∧
+    Gen.SrcIdxFa.fetchAllByRid (toRecs index) fi a b rid =
+      .ok (match fetchAllByRid index rid with
+        | .ok r => (.ok (), fetchState r)
+        | .error e => (.error (toIo e), fi, a, b)) :=
+  ⟨fetchByRid_eq_model index fi a b rid start stop, fetchAllByRid_eq_model index fi a b rid⟩
+
+open RbV.Thm.GenSrcIdxFa in
+/-- `read`: `read_into_buffer` on what was fetched; the "No sequence fetched" error before any fetch -/
+theorem read_source_dispatch {ρ : Type} (fb : ρ → Except Rs.IoErr (List Nat) × ρ) (co : ρ → Nat → ρ)
+    (sk : ρ → Nat → Except Rs.IoErr Nat × ρ) (s : ρ) (r : Gen.SrcIdxFa.IndexRecord) (start stop : Nat) (seq : List Nat)
+    (fuel : Nat) :
+    Gen.SrcIdxFa.read fb co sk s (some r) (some start) (some stop) seq fuel =
+      Gen.SrcIdxFa.readIntoBuffer fb co sk s r start stop seq fuel ∧
+    Gen.SrcIdxFa.read fb co sk s none none none seq fuel = .ok (.error (toIo .nofetch), s, seq) :=
+  ⟨read_eq fb co sk s r start stop seq fuel, RbV.Thm.GenSrcIdxFa.read_nofetch fb co sk s seq fuel⟩
+
+open RbV.Thm.GenSrcIdxFa in
+/-- **Translated `fetch_by_rid` followed by translated `read` returns exactly `seq[start..stop]`** of record `rid`, for
+every well-formed file, every chunk schedule, whatever was fetched or read before. -/
+theorem fetch_read_source_correct (index : List (Bytes × Idx)) (file seq : Bytes) (rid start stop : Nat)
+    (sched : Nat → Nat) (s0 : St) (seq0 : Bytes) (fuel : Nat) (fi0 : Option Gen.SrcIdxFa.IndexRecord) (a0 b0 : Option Nat)
+    (hr : rid < index.length) (wf : WellFormed file index[rid].2 seq) (h1 : start ≤ stop) (h2 : stop ≤ index[rid].2.len)
+    (hs : ∀ k, 0 < sched k) (h64 : index[rid].2.lB < 2 ^ 64) (hfit : pos index[rid].2 start < 2 ^ 64)
+    (hfuel : file.length < fuel) :
+    ∃ fi a b s', Gen.SrcIdxFa.fetchByRid (toRecs index) fi0 a0 b0 rid start stop = .ok (.ok (), fi, a, b) ∧
+      Gen.SrcIdxFa.read (fillBufOp sched) consumeOp (seekOp file) s0 fi a b seq0 fuel =
+        .ok (.ok (), s', (seq.drop start).take (stop - start)) := by
+  obtain ⟨s', h⟩ := read_source_correct file seq index[rid].2 start stop sched s0 seq0 fuel wf h1 h2 hs h64 hfit hfuel
+  refine ⟨some (toRec index[rid].2), some start, some stop, s', ?_, ?_⟩
+  · rw [fetchByRid_eq_model, (fetch_known_rid index rid start stop hr).1]; rfl
+  · rw [read_eq]; exact h
+
 /-! ## Non-vacuity: a concrete two-line record, LF and CRLF -/
 
 private def exFile : Bytes := [62, 97, 10, 65, 67, 71, 10, 84, 10]        -- ">a\nACG\nT\n"
@@ -214,5 +403,36 @@ example : readIter exFile (fun k => k + 1) exIdx 0 4 = .ok ([65, 67, 71, 84], no
 /-- cut in front of the last base (offset 7): an error, not `ACG` -/
 example : readIntoBuffer (exFile.take 7) (fun _ => 2) exIdx 0 4 = .error .eof :=
   read_truncated exFile exSeq exIdx 0 4 7 (fun _ => 2) exWf (by decide) (by decide) (fun _ => by decide) (by decide)
+
+open RbV.Thm.GenSrcIdxFa in
+/-- the translated code, one byte per refill, a dirty buffer and a reader left somewhere else: `CGT` -/
+example : ∃ s', Gen.SrcIdxFa.readIntoBuffer (fillBufOp (fun _ => 1)) consumeOp (seekOp exFile) ⟨[1, 2], 1, 5⟩ (toRec exIdx)
+    1 4 [7, 7] 10 = .ok (.ok (), s', [67, 71, 84]) :=
+  read_source_correct exFile exSeq exIdx 1 4 (fun _ => 1) _ _ 10 exWf (by decide) (by decide) (fun _ => by decide)
+    (by decide) (by decide) (by decide)
+
+open RbV.Thm.GenSrcIdxFa in
+example : ∃ s' seq', Gen.SrcIdxFa.readIntoBuffer (fillBufOp (fun _ => 2)) consumeOp (seekOp (exFile.take 7)) ⟨[], 0, 0⟩
+    (toRec exIdx) 0 4 [] 10 = .ok (.error eofErr, s', seq') :=
+  read_source_truncated exFile exSeq exIdx 0 4 7 (fun _ => 2) _ _ 10 exWf (by decide) (by decide) (fun _ => by decide)
+    (by decide) (by decide) (by decide) (by decide)
+
+open RbV.Thm.GenSrcIdxFa in
+example : Gen.SrcIdxFa.seekTo (seekOp exFile) ⟨[], 0, 0⟩ (toRec exIdx) 3 = .ok (.ok 0, ⟨[84, 10], 0, 0⟩) :=
+  seek_to_source_eq_model exFile exIdx 3 _ (by decide) (by decide) (by decide)
+
+open RbV.Thm.GenSrcIdxFa in
+/-- the translated iterator, refills of 1, 2, 3, … bytes, a buffer capacity of 2: `A C G T`, then `None` -/
+example : drainIt (fun k => k + 1) 2 exIdx 20 10 ((seekTo exFile exIdx 0).1, 4 - 0, (seekTo exFile exIdx 0).2, [], 0) =
+    .ok [.ok 65, .ok 67, .ok 71, .ok 84] :=
+  iter_source_correct exFile exSeq exIdx 2 0 4 20 10 (fun k => k + 1) exWf (by decide) (by decide) (fun _ => by omega)
+    (by decide) (by decide) (by decide) (by decide) (by decide)
+
+open RbV.Thm.GenSrcIdxFa in
+example : ∃ fi a b s', Gen.SrcIdxFa.fetchByRid (toRecs [([97], exIdx)]) none none none 0 1 4 = .ok (.ok (), fi, a, b) ∧
+    Gen.SrcIdxFa.read (fillBufOp (fun _ => 3)) consumeOp (seekOp exFile) ⟨[], 0, 0⟩ fi a b [] 10 =
+      .ok (.ok (), s', [67, 71, 84]) :=
+  fetch_read_source_correct [([97], exIdx)] exFile exSeq 0 1 4 (fun _ => 3) _ _ 10 none none none (by decide) exWf
+    (by decide) (by decide) (fun _ => by decide) (by decide) (by decide) (by decide)
 
 end RbV.Thm.C12
